@@ -384,6 +384,82 @@ fn random_program(rng: &mut Rng, depth: u32) -> Vec<Node> {
     nodes
 }
 
+/// Conditional chains inside macro bodies, decided by #define flags that the expansions themselves
+/// set (emit-once blocks, a flag set by another macro between two identical calls): every call must
+/// select its branch from the state at that point. Oracle: the same program with every call
+/// replaced by its body (expanded on the IR), and the reference image.
+fn macro_hosted(ctx: &Ctx, n: u64) {
+    fw::par_for(n, 16, |i| {
+        let mut rng = Rng::for_case(ctx.seed, 0xC08_A, i);
+        let mut marker = 0i64;
+        let mut mk = |m: &mut i64| {
+            *m += 1;
+            Node::Data { label: None, width: 2, ops: vec![DataOp::E(E::Lit(0x3000 + *m, 1))] }
+        };
+        let n_flags = 1 + rng.usize(3);
+        let flags: Vec<String> = (0..n_flags).map(|k| format!("HOSTED_FLAG_{}", k)).collect();
+        let mut nodes = vec![Node::Comment("C08 chains inside macro bodies".into())];
+        let n_macros = 1 + rng.usize(3);
+        let mut names = vec![];
+        for m in 0..n_macros {
+            let name = format!("hosted_mac_{}", m);
+            let mut body = vec![];
+            for _ in 0..1 + rng.usize(3) {
+                let flag = rng.pick(&flags).clone();
+                match rng.below(4) {
+                    0 => {
+                        // emit once
+                        let (a, b) = (mk(&mut marker), mk(&mut marker));
+                        body.push(Node::Cond { arms: vec![Arm { cond: Cond::NDef(flag.clone()), body: vec![Node::Define(flag), a] }], else_body: if rng.chance(1, 2) { Some(vec![b]) } else { None } });
+                    }
+                    1 => {
+                        let (a, b, c) = (mk(&mut marker), mk(&mut marker), mk(&mut marker));
+                        let other = rng.pick(&flags).clone();
+                        // chain with an .elif-like second test through nesting (.elif takes expressions only)
+                        body.push(Node::Cond { arms: vec![Arm { cond: Cond::Def(flag), body: vec![a] }], else_body: Some(vec![Node::Cond { arms: vec![Arm { cond: Cond::NDef(other), body: vec![b] }], else_body: Some(vec![c]) }]) });
+                    }
+                    2 => {
+                        body.push(Node::Define(flag));
+                        body.push(mk(&mut marker));
+                    }
+                    _ => body.push(mk(&mut marker)),
+                }
+            }
+            nodes.push(Node::MacroDef { name: name.clone(), body, end_long: rng.chance(1, 2) });
+            names.push(name);
+        }
+        // calls: repeated, identical, interleaved
+        for _ in 0..2 + rng.usize(6) {
+            nodes.push(Node::MacroCall { name: rng.pick(&names).clone(), args: vec![] });
+            if rng.chance(1, 3) {
+                nodes.push(mk(&mut marker));
+            }
+        }
+        let mut macros = std::collections::HashMap::new();
+        layout::collect_macros(&nodes, &mut macros);
+        let Ok(expanded) = layout::expand_macros(&nodes, &macros, 0) else { return };
+        let reference = layout::assemble(&layout::single(nodes.clone()));
+        let src = ir::print_canonical(&nodes);
+        let hand = ir::print_canonical(&expanded);
+        let a = fw::build_str(&src);
+        let b = fw::build_str(&hand);
+        ctx.eval(1);
+        ctx.count("chains_inside_macro_bodies_programs", 1);
+        ctx.distinct(fw::hash_str(&src));
+        let same = match (&a, &b, &reference) {
+            (Outcome::Ok(x), Outcome::Ok(y), Ok(r)) => x.code == y.code && x.code == r.code,
+            _ => false,
+        };
+        if !same {
+            ctx.violation(
+                "cond/in-macro-body/differs-from-expanded-program",
+                format!("macro-hosted conditional chains: {:?} vs hand-expanded {:?}", fw::clip(&format!("{:?}", a.brief()), 120), fw::clip(&format!("{:?}", b.brief()), 120)),
+                json!({"source": src, "deleted": hand, "shape": "macro-hosted", "observed": a.brief(), "observed_deleted": b.brief()}),
+            );
+        }
+    });
+}
+
 pub fn random_nodes(rng: &mut Rng) -> Vec<Node> {
     random_program(rng, 3)
 }
@@ -404,10 +480,11 @@ pub fn run(ctx: &Ctx) -> i32 {
         }
         check(ctx, &nodes, "random");
     });
+    macro_hosted(ctx, ctx.tier.pick(1_000u64, 100_000u64));
     ctx.exhaustive.store(false, std::sync::atomic::Ordering::Relaxed);
     fw::finish(
         ctx,
-        "conditional chains (.if/.ifdef/.ifndef head, up to 5 .elif arms, optional .else) under every truth assignment for all shapes up to 3 arms (thorough: 5), with and without nesting and hostile unselected content, plus random programs nested up to 4 deep; conditions on literals, comparisons, logical operators, .equ constants and #define flags defined before / after / only inside unselected branches; unselected branches carry .error, clobbering .equ/.set/.def/#define, duplicate labels, garbage text, unterminated .macro heads, missing .include, other .device; distinct_nontrivial = distinct program texts / enumerated shapes",
+        "conditional chains (.if/.ifdef/.ifndef head, up to 5 .elif arms, optional .else) under every truth assignment for all shapes up to 3 arms (thorough: 5), with and without nesting and hostile unselected content, plus random programs nested up to 4 deep; conditions on literals, comparisons, logical operators, .equ constants and #define flags defined before / after / only inside unselected branches; unselected branches carry .error, clobbering .equ/.set/.def/#define, duplicate labels, garbage text, unterminated .macro heads, missing .include, other .device; plus programs whose chains sit inside macro bodies and test #define flags that the expansions themselves set (emit-once blocks, flags set by another macro between identical calls), compared with the program in which every call is replaced by its body; distinct_nontrivial = distinct program texts / enumerated shapes",
         &["refmodel/layout.rs conditional semantics (first true branch, else when none); the blanked program keeps line numbers so whole BuildResults are compared"],
     )
 }
